@@ -12,12 +12,12 @@ demo_name=$(basename "$DEMO" .rs)
 git checkout -q -- . 2>/dev/null
 git apply seeded_patch.diff || { echo "patch does not apply"; exit 2; }
 echo "== demo WITH change (expect failure)"
-cargo test -j 8 --offline -p paseto-test --test "$demo_name" 2>&1 | grep -E "^test result|FAILED|panicked" | (head -4; tail -1) | sort -u
+cargo test -j 8 --offline -p paseto-test --test "$demo_name" 2>&1 | grep -E "^test result|FAILED|panicked" | grep -E "^test result"
 echo "== full suite WITH change (expect 395 passed)"
 cargo nextest run --build-jobs 8 --workspace --no-fail-fast --offline -E "not binary($demo_name)" 2>&1 | grep -E "Summary|FAIL " | head -5
 git apply -R seeded_patch.diff
 echo "== demo WITHOUT change (expect ok)"
-cargo test -j 8 --offline -p paseto-test --test "$demo_name" 2>&1 | grep -E "^test result|FAILED|panicked" | (head -4; tail -1) | sort -u
+cargo test -j 8 --offline -p paseto-test --test "$demo_name" 2>&1 | grep -E "^test result|FAILED|panicked" | grep -E "^test result"
 git apply seeded_patch.diff
 mkdir -p /verif/seeded/$ID$SFX
 cp seeded_patch.diff /verif/seeded/$ID$SFX/patch.diff
